@@ -29,10 +29,14 @@ RULE = (
 ASSUMPTIONS = ["non-ASCII letters in names: either outcome accepted", "any exception at definition time counts as 'rejected'"]
 
 
+QUICK_BUDGET = {"cases": 7200, "deadline_s": 100, "case_timeout_s": 120, "floors": {"where_observations": 250, "names_checked": 2000, "paths_checked": 1200, "maps_checked": 200}}
+THOROUGH_FACTOR = 10  # thorough = the same workload with 10x the cases (floors scale along)
+
+
 def budget(tier):
-    if tier == "thorough":
-        return {"cases": 72000, "deadline_s": 700, "case_timeout_s": 180, "floors": {"where_observations": 3000, "names_checked": 20000, "paths_checked": 12000, "maps_checked": 2000}}
-    return {"cases": 7200, "deadline_s": 100, "case_timeout_s": 120, "floors": {"where_observations": 250, "names_checked": 2000, "paths_checked": 1200, "maps_checked": 200}}
+    from ..core import scaled_budget
+
+    return scaled_budget(QUICK_BUDGET, tier, THOROUGH_FACTOR, noscale=())
 
 
 NAME_POOL = [
